@@ -38,6 +38,108 @@ type Renderer struct {
 	// sensitive rendering used by the interprocedural walkers).
 	subst    map[*ssa.Parameter]string
 	loopSyms map[*ssa.Phi]string
+	// inlineDepth: nesting of helper bodies rendered in place of their calls (see inlineResults)
+	inlineDepth int
+	// phiPick renders the listed phis as one chosen operand (the value on one incoming edge):
+	// used to split a call whose arguments were merged by hoisting into one variant per edge
+	phiPick map[*ssa.Phi]int
+}
+
+// newHelper: a module function that does not exist on the reference tree (reffuncs_gen.go) — the
+// product of an extract-method refactoring. Its calls are rendered as its body and call/guard
+// searches descend into it, so that moving code into a helper does not change what the rules see.
+func newHelper(f *ssa.Function) bool {
+	if f == nil || len(f.Blocks) == 0 || f.Pkg == nil || !inModule(f.Pkg.Pkg.Path()) || f.Synthetic != "" {
+		return false
+	}
+	if len(refFuncs) == 0 {
+		return false
+	}
+	root := f
+	for root.Parent() != nil {
+		root = root.Parent()
+	}
+	return !refFuncs[FuncKey(root)] && !refFuncs[FuncKey(f)]
+}
+
+// inlineResults renders the results of a call of a new helper as the helper's own return
+// expressions with the arguments substituted for its parameters (φ over several returns).
+func (r *Renderer) inlineResults(c *ssa.CallCommon, depth int) ([]string, bool) {
+	f, ok := c.Value.(*ssa.Function)
+	if !ok || c.IsInvoke() || !newHelper(f) || r.inlineDepth >= 3 || f == r.fn {
+		return nil, false
+	}
+	sub := NewRenderer(r.w, f)
+	sub.inlineDepth = r.inlineDepth + 1
+	sub.subst = map[*ssa.Parameter]string{}
+	for i, p := range f.Params {
+		if i < len(c.Args) {
+			sub.subst[p] = r.render(c.Args[i], depth+1)
+		}
+	}
+	n := f.Signature.Results().Len()
+	if n == 0 {
+		return nil, false
+	}
+	sets := make([]map[string]bool, n)
+	for i := range sets {
+		sets[i] = map[string]bool{}
+	}
+	nret := 0
+	for _, b := range f.Blocks {
+		if b == f.Recover || len(b.Instrs) == 0 {
+			continue
+		}
+		ret, ok := b.Instrs[len(b.Instrs)-1].(*ssa.Return)
+		if !ok {
+			continue
+		}
+		rs := RetResults(ret)
+		if len(rs) != n {
+			return nil, false
+		}
+		nret++
+		// results other than the error are meaningful on the success returns only (the caller
+		// tests the error first): an error return's zero values are not alternatives of the value
+		errRet := false
+		if n >= 2 && f.Signature.Results().At(n-1).Type().String() == "error" {
+			if cst, isC := rs[n-1].(*ssa.Const); !(isC && cst.Value == nil) {
+				if _, isPhi := rs[n-1].(*ssa.Phi); !isPhi {
+					if _, isParam := rs[n-1].(*ssa.Parameter); !isParam {
+						errRet = true
+					}
+				}
+			}
+		}
+		for i, v := range rs {
+			if errRet && i < n-1 {
+				continue
+			}
+			sets[i][sub.R(v)] = true
+		}
+	}
+	for i := range sets {
+		if len(sets[i]) == 0 {
+			return nil, false
+		}
+	}
+	if nret == 0 || nret > 6 {
+		return nil, false
+	}
+	out := make([]string, n)
+	for i, set := range sets {
+		keys := make([]string, 0, len(set))
+		for k := range set {
+			keys = append(keys, k)
+		}
+		sort.Strings(keys)
+		if len(keys) == 1 {
+			out[i] = keys[0]
+		} else {
+			out[i] = "φ(" + strings.Join(keys, "|") + ")"
+		}
+	}
+	return out, true
 }
 
 func NewRenderer(w *World, fn *ssa.Function) *Renderer {
@@ -530,10 +632,21 @@ func (r *Renderer) render1(v ssa.Value, depth int) string {
 		}
 		return "(" + a + " " + op.String() + " " + b + ")"
 	case *ssa.Call:
+		if res, ok := r.inlineResults(&x.Call, depth); ok && len(res) == 1 {
+			return res[0]
+		}
 		return r.renderCall(&x.Call, depth)
 	case *ssa.Extract:
+		if call, isCall := x.Tuple.(*ssa.Call); isCall {
+			if res, ok := r.inlineResults(&call.Call, depth); ok && x.Index < len(res) {
+				return res[x.Index]
+			}
+		}
 		return r.render(x.Tuple, depth+1) + fmt.Sprintf("#%d", x.Index)
 	case *ssa.Phi:
+		if k, ok := r.phiPick[x]; ok && k < len(x.Edges) {
+			return r.render(x.Edges[k], depth+1)
+		}
 		if x.Comment == "rangeindex" {
 			return r.loopVar(x)
 		}
@@ -791,7 +904,7 @@ func renameIdents(pat string, ren map[string]string) string {
 			if i > 0 {
 				prev = pat[i-1]
 			}
-			if to, ok := ren[id]; ok && prev != '.' && prev != '\\' && !(j < len(pat) && pat[j] == '/') {
+			if to, ok := ren[id]; ok && prev != '.' && prev != '\\' && !(j < len(pat) && pat[j] == '/') && !qualifierAt(pat, j) {
 				sb.WriteString(to)
 			} else {
 				sb.WriteString(id)
@@ -803,4 +916,30 @@ func renameIdents(pat string, ren map[string]string) string {
 		i++
 	}
 	return sb.String()
+}
+
+// qualifierAt: the identifier ending at j is a package qualifier — it is followed by ".(" (a
+// method expression pkg.(T).M) or by ".Name(" (a package-level function) — and not a parameter
+// (whose uses are followed by a field selector, a comma or a bracket). Patterns are regexps, so
+// the dot and the parenthesis may be backslash-escaped.
+func qualifierAt(pat string, j int) bool {
+	k := j
+	if strings.HasPrefix(pat[k:], `\.`) {
+		k += 2
+	} else if strings.HasPrefix(pat[k:], `.`) {
+		k++
+	} else {
+		return false
+	}
+	if strings.HasPrefix(pat[k:], `\(`) || strings.HasPrefix(pat[k:], `(`) {
+		return true
+	}
+	m := k
+	for m < len(pat) && (pat[m] == '_' || (pat[m] >= 'a' && pat[m] <= 'z') || (pat[m] >= 'A' && pat[m] <= 'Z') || (pat[m] >= '0' && pat[m] <= '9')) {
+		m++
+	}
+	if m == k {
+		return false
+	}
+	return strings.HasPrefix(pat[m:], `\(`) || strings.HasPrefix(pat[m:], `(`)
 }
